@@ -30,6 +30,7 @@ def parseEv : List String → Option Ev
   | ["fa"] => some .fireAbort
   | ["clear"] => some .clear
   | ["shutdown"] => some .shutdown
+  | ["tmshutdown"] => some .tmShutdown
   | ["fset", c, i] => do pure (.futSet (← c.toNat?) (← i.toNat?))
   | ["fcancel", c, i] => do pure (.futCancel (← c.toNat?) (← i.toNat?))
   | ["regfut", c, k] => do pure (.regFut (← c.toNat?) ((← k.toNat?) != 0))
